@@ -495,7 +495,9 @@ func (ex *Exec) pkgOfKey(fc *FuncContract, f *ssa.Function) *types.Package {
 }
 
 // applyContract replaces a call by assert requires; havoc modifies; assume ensures.
-func (ex *Exec) applyContract(ctx *callCtx, fc *FuncContract, f *ssa.Function) []cont {
+// callPre evaluates a callee's preconditions and the caller's call-site assertions at a call (or go
+// statement): each becomes an obligation of the caller and is then assumed.
+func (ex *Exec) callPre(ctx *callCtx, fc *FuncContract, f *ssa.Function, kind string) (map[string]*Val, func(cur, old *State, c *Clause, vars map[string]*Val) *Term) {
 	st := ctx.st
 	vars := ex.bindParams(fc, ctx.args, f)
 	if f != nil && len(f.FreeVars) > 0 {
@@ -531,7 +533,7 @@ func (ex *Exec) applyContract(ctx *callCtx, fc *FuncContract, f *ssa.Function) [
 		for _, c := range fc.Requires {
 			g := evalIn(st, st, c, vars)
 			label := fmt.Sprintf("%s.%s", short(lastFunc(ctx.key)), c.Label)
-			ex.oblige(st, "requires@call", label, c.Tags, g, c.Src, ex.eng.pos(ctx.site.Pos()))
+			ex.oblige(st, "requires@"+kind, label, c.Tags, g, c.Src, ex.eng.pos(ctx.site.Pos()))
 			st.assume(g)
 		}
 		// call-site assertions declared by the caller's contract
@@ -545,12 +547,20 @@ func (ex *Exec) applyContract(ctx *callCtx, fc *FuncContract, f *ssa.Function) [
 					}
 					ex.bindOwnParams(env, fr)
 					g := ex.evalWith(env, ca.C)
-					ex.oblige(st, "assert@call", fmt.Sprintf("%s.%s", short(lastFunc(ctx.key)), ca.C.Label), ca.C.Tags, g, ca.C.Src, ex.eng.pos(ctx.site.Pos()))
+					ex.oblige(st, "assert@"+kind, fmt.Sprintf("%s.%s", short(lastFunc(ctx.key)), ca.C.Label), ca.C.Tags, g, ca.C.Src, ex.eng.pos(ctx.site.Pos()))
 					st.assume(g)
 				}
 			}
 		}
 	}
+	return vars, evalIn
+}
+
+func (ex *Exec) applyContract(ctx *callCtx, fc *FuncContract, f *ssa.Function) []cont {
+	st := ctx.st
+	vars, evalIn := ex.callPre(ctx, fc, f, "call")
+	pkg := ex.pkgOfKey(fc, f)
+	_ = pkg
 	old := st.clone()
 	// havoc
 	if f != nil && f.Blocks != nil && !fc.Trusted && strings.HasPrefix(pkgPathOf(f), modPath) {
